@@ -345,7 +345,7 @@ func (r *Run) solveAll() {
 			if r.Dump != "" {
 				os.WriteFile(filepath.Join(r.Dump, sanitize(o.Name)+".smt2"), []byte(script), 0o644)
 			}
-			if o.Size > 4000000 {
+			if o.Size > 8000000 {
 				o.Res = Result{Status: "error", Raw: "VC size cap exceeded"}
 				return
 			}
